@@ -219,9 +219,11 @@ var goroutineHdr = regexp.MustCompile(`(?m)^goroutine \d+ \[([^\]]+)\]:$`)
 // receive and no rebroadcast is in flight (event based: it polls goroutine
 // states, it does not sleep for a fixed time).
 func (s *Sim) Quiesce() {
-	deadline := time.Now().Add(60 * time.Second)
+	// (no verdict depends on this bound being short; a loaded machine must not trip it)
+	deadline := time.Now().Add(240 * time.Second)
 	buf := make([]byte, 1<<20)
 	calm := 0
+	lastBusy := ""
 	for calm < 3 {
 		n := runtime.Stack(buf, true)
 		busy := false
@@ -235,11 +237,11 @@ func (s *Sim) Quiesce() {
 				state = strings.Split(m[1], ",")[0]
 			}
 			if strings.Contains(g, "resendUnminedTxs") || strings.Contains(g, "publishTransaction") {
-				busy = true
+				busy, lastBusy = true, g
 				break
 			}
 			if state != "select" && state != "chan receive" && state != "select (no cases)" {
-				busy = true
+				busy, lastBusy = true, g
 				break
 			}
 		}
@@ -249,7 +251,10 @@ func (s *Sim) Quiesce() {
 			calm++
 		}
 		if time.Now().After(deadline) {
-			panic("wsim: wallet did not quiesce within 60s (harness error)")
+			if len(lastBusy) > 1500 {
+				lastBusy = lastBusy[:1500]
+			}
+			panic("wsim: wallet did not quiesce within 240s (harness error); last busy wallet goroutine:\n" + lastBusy)
 		}
 		if calm < 3 {
 			runtime.Gosched()
